@@ -50,7 +50,8 @@ try:
                 shutil.copy(d, inner)
                 envb = {k: v for k, v in dict(os.environ, CARGO_NET_OFFLINE="true").items() if k != "CARGO_TARGET_DIR"}
                 subprocess.run("cargo build --offline --quiet", cwd=wt, shell=True, env=envb, stdout=subprocess.PIPE, stderr=subprocess.STDOUT)
-                p = subprocess.run("%s %s" % (interp, os.path.join(inner, os.path.basename(d))), cwd=wt, shell=True, stdout=subprocess.PIPE,
+                extra = (" " + wt) if "--demo-arg-wt" in sys.argv else ""
+                p = subprocess.run("%s %s%s" % (interp, os.path.join(inner, os.path.basename(d)), extra), cwd=wt, shell=True, stdout=subprocess.PIPE,
                                    stderr=subprocess.STDOUT, text=True, timeout=2400,
                                    env={k: v for k, v in dict(os.environ, CARGO_NET_OFFLINE="true").items() if k != "CARGO_TARGET_DIR"})
                 return ("ok" if p.returncode == 0 else "FAILED", "rc=%d" % p.returncode, ""), p.stdout[-600:]
